@@ -3,7 +3,8 @@
        <nmutex>[g][s]|<sched>|<prog0>|<prog1>|...
      sched = comma separated thread ids (a schedule prefix; the run is completed round-robin)
      prog  = tokens separated by blanks:
-       a0 a1  u<i>  c  s<k>,<v>  g<k>  m<k>  r<k>  e<v>  w<k>,<n>  o  y  t<e>
+       a0 a1  u<i>  c  s<k>,<v>  g<k>  m<k>  r<k>  e<v>  w<k>,<n>  o  y  z<ms>  t<e>
+       (S<t> on a Thread object whose run has finished and been joined calls it again: trace marker R)
        [ body ]<e>,<e>.. handler }        try { body } catch (x in e,e..) { handler }
        L<m> U<m> T<m>  W<m>( body )  Q<m>( body )  i<m>  S<t> J<t> P<t>      (Q = if (trylock) { body; unlock })
    argv[1]:
@@ -33,6 +34,7 @@ let rec parse_block (toks : string list) (stop : string -> bool) : op list * str
       | 'w' -> let (k, n) = pair arg in (OWork (k, n), rest)
       | 'o' -> (OObs, rest)
       | 'y' -> (OYield, rest)
+      | 'z' -> (OYield, rest)          (* z<ms>: sleep — nothing for the machine *)
       | 't' -> (OThrow (num arg), rest)
       | '[' ->
         let (body, r1) = parse_block rest (fun s -> s.[0] = ']') in
@@ -82,6 +84,7 @@ let ev_s me = function
   | EvFin l -> "f" ^ oids me l
   | EvFatal e -> "F" ^ string_of_int (i e)
   | EvExit l -> "x" ^ oids me l
+  | EvRestart -> "R"
 let trace_s me (out : ev list) = String.concat "," (List.rev_map (ev_s me) out)
 
 let head_store (l : lstate) = match l.code with KStore m :: _ -> Some (i m) | _ -> None
@@ -100,12 +103,24 @@ let () =
         let buf = Buffer.create 256 in
         if mode = "spec" then begin
           let cells = Array.make (max nm 1) 0 in
+          (* how often every Thread object is called: the number of S<u> anywhere (at least one run) *)
+          let rec spawns (p : op list) = List.concat_map (function
+              | OSpawn u -> [i u] | OTry (b, _, h) -> spawns b @ spawns h | OWith (_, b) -> spawns b
+              | OTryOnce (_, b) -> spawns b | _ -> []) p in
+          let all_spawns = List.concat_map spawns progs in
+          let rounds t = max 1 (List.length (List.filter (fun u -> u = t) all_spawns)) in
+          (* after_run.(t) = the thread's whole trace after its 1st, 2nd, ... run (newest first) *)
+          let after_run = Array.make n [] in
           let finals = List.mapi (fun t p ->
               let l = ref (th_linit (nat_of_int t) p) in
-              let fuel = ref 100000 in
-              while not (!l).done0 && not (!l).fatal && !fuel > 0 do
-                (match head_store !l with Some m when m < nm -> cells.(m) <- cells.(m) + 1 | _ -> ());
-                l := th_lstep true !l; decr fuel
+              for r = 1 to rounds t do
+                if r > 1 then l := restart !l p;
+                let fuel = ref 100000 in
+                while not (!l).done0 && not (!l).fatal && !fuel > 0 do
+                  (match head_store !l with Some m when m < nm -> cells.(m) <- cells.(m) + 1 | _ -> ());
+                  l := th_lstep true !l; decr fuel
+                done;
+                after_run.(t) <- (!l).out :: after_run.(t)
               done;
               !l) progs in
           Buffer.add_string buf (String.concat " / " (List.mapi (fun t l ->
@@ -113,13 +128,19 @@ let () =
           Buffer.add_string buf " # ";
           Buffer.add_string buf (String.concat "," (List.init nm (fun m -> Printf.sprintf "c%d=%d" m cells.(m))));
           Buffer.add_string buf " # ";
-          (* what thread 0's peeks must read: the complete trace of the peeked thread *)
-          let rec peeks (p : op list) = List.concat_map (function
-              | OPeek u -> [i u] | OTry (b, _, h) -> peeks b @ peeks h | OWith (_, b) -> peeks b | OTryOnce (_, b) -> peeks b | _ -> []) p in
-          let arr = Array.of_list finals in
-          Buffer.add_string buf (String.concat ";" (List.concat (List.mapi (fun t p ->
-              List.map (fun u -> Printf.sprintf "%d:P%d=[%s]" t u
-                           (if u < n then trace_s u arr.(u).out else "?")) (peeks p)) progs)));
+          (* what a peek must read: the peeked thread's trace through its latest run called by the peeker so far *)
+          let peek_items t (p : op list) =
+            let called = Hashtbl.create 8 in
+            List.concat_map (function
+              | OSpawn u -> Hashtbl.replace called (i u) (1 + (try Hashtbl.find called (i u) with Not_found -> 0)); []
+              | OPeek u ->
+                let u = i u in
+                let r = (try Hashtbl.find called u with Not_found -> 0) in
+                let tr = if u < n && r >= 1 && r <= List.length after_run.(u)
+                  then trace_s u (List.nth (List.rev after_run.(u)) (r - 1)) else "?" in
+                [Printf.sprintf "%d:P%d=[%s]" t u tr]
+              | _ -> []) p in
+          Buffer.add_string buf (String.concat ";" (List.concat (List.mapi peek_items progs)));
           Buffer.add_string buf " # ";
           (* contract check: the machine under the case's schedule must terminate cleanly (no abort, no
              undefined behaviour, nobody stuck, no mutex left held) *)
